@@ -335,6 +335,12 @@ func propAbortStaysInItsRequest(t *rapid.T) {
 		note(fmt.Sprintf("deny-gate aborted=%v", c.IsAborted()))
 	})
 	r.GET("/plain", func(c *rux.Context) { note(fmt.Sprintf("plain-main aborted=%v", c.IsAborted())); c.WriteString("plain") })
+	// an internal redirect: the handler hands its own context to the router again, for another path
+	r.GET("/fwd", func(c *rux.Context) {
+		note("fwd")
+		c.Req.URL.Path = "/plain"
+		c.Router().HandleContext(c)
+	})
 	r.GET("/outer", func(c *rux.Context) { note(fmt.Sprintf("outer-main aborted=%v", c.IsAborted())); c.WriteString("outer") },
 		func(c *rux.Context) {
 			note(fmt.Sprintf("outer-mw-enter aborted=%v", c.IsAborted()))
@@ -346,9 +352,10 @@ func propAbortStaysInItsRequest(t *rapid.T) {
 	want := map[string]string{
 		"/deny":  "deny-gate aborted=true",
 		"/plain": "plain-main aborted=false",
+		"/fwd":   "fwd|plain-main aborted=false",
 		"/outer": "outer-mw-enter aborted=false|deny-gate aborted=true|outer-mw-after-nested aborted=false|outer-main aborted=false|outer-mw-leave aborted=false",
 	}
-	hist := rapid.SliceOfN(rapid.SampledFrom([]string{"/boom", "/deny", "/plain", "/outer", "/outer"}), 2, 8).Draw(t, "history")
+	hist := rapid.SliceOfN(rapid.SampledFrom([]string{"/boom", "/deny", "/plain", "/fwd", "/outer", "/outer"}), 2, 8).Draw(t, "history")
 	sawPanic := false
 	for i, p := range hist {
 		log = nil
@@ -367,6 +374,9 @@ func propAbortStaysInItsRequest(t *rapid.T) {
 		}
 		if p == "/outer" && rec.Body.String() != "outer" {
 			t.Fatalf("request %d of %v: GET /outer answered %d %q", i, hist, rec.Code, rec.Body.String())
+		}
+		if p == "/fwd" {
+			sawPanic = true // (a forwarded request is the other history that can leave the pool in a bad state)
 		}
 		if p == "/outer" && sawPanic {
 			ev.Class("nested-refused-request-after-a-panic")
